@@ -130,6 +130,10 @@ impl ListableStorageTraits for OpendalStore {
                             keys.push(StoreKey::try_from(entry.path())?);
                         }
                         opendal::EntryMode::DIR => {
+                            // The root directory lists itself as "/", which is not a valid prefix
+                            if entry.path() == "/" {
+                                continue;
+                            }
                             let prefix_entry = StorePrefix::try_from(entry.path())?;
                             if &prefix_entry != prefix {
                                 prefixes.push(prefix_entry);
